@@ -71,6 +71,8 @@ def run(repo, rep):
 
     rep.run_borrowed(c12, {"C12-b": "C05-a"}, repo)
     rule_round5(repo, rep)
+    rep.clause("C05-g", "HillClimb: a trial that may stop early re-initialises, for every range, each per-trial field the permutation step reads off ranges it did not reach")
+    rule_trial_state(repo, rep)
     from .shared import duplicate_branch_lint
 
     duplicate_branch_lint(repo, rep, "C05-c", ['tensor_allocation', 'greedy_allocation', 'hillclimb_allocation', 'live_range'])
@@ -384,6 +386,110 @@ def run(repo, rep):
                                             "max(tens.address, other_tens.address) <= min(tens.address + self.size, other_tens.address + other.size)")
     rep.check(ok, "C05-d'", f"{L}:LiveRange.overlaps_address", "verifier overlap test is half-open interval overlap on [address, address + size)", norm(t[0].test) if t else "")
     rep.floor("C05-d'", 14)
+
+
+
+_TRIAL_FIELD_EXEMPT = {
+    # field: reason a value of an older trial is harmless
+    "turn": "any earlier turn is a valid position of the permutation; it only widens the set of swap candidates",
+}
+
+
+def rule_trial_state(repo, rep):
+    """(g) HillClimb keeps the state of a trial on the ranges themselves (address, end address, predecessor, turn). `allocate_indices`
+    may stop a trial early (the allocation is already worse than the best one); the ranges it did not reach then hold whatever an older
+    trial left. `attempt_bottleneck_fix` / `add_predecessor_turns` read these fields off *every* range (bottleneck scan, neighbours,
+    predecessor chain). Typestate: if the trial loop has an early exit, every per-trial field that the permutation step reads must be
+    re-initialised for all ranges before the loop - or be read only under a test of the 'allocated' marker. Otherwise a stale bottleneck is
+    chosen, whose candidate list can have one entry (`random.randint(0, -1)`: ValueError instead of an allocation) or whose stale
+    predecessor chain need not end."""
+    m = repo.mod("hillclimb_allocation")
+    site = "ethosu/vela/hillclimb_allocation.py:HillClimbAllocator.allocate_indices"
+    f = m.func("HillClimbAllocator.allocate_indices")
+    loops = [n for n in f.body if isinstance(n, ast.For)]
+    main = [n for n in loops if any(isinstance(x, (ast.Break, ast.Return)) for x in ast.walk(n)) or "indices" in str(norm(n.iter))]
+    if len(main) != 1:
+        raise AnalysisError("allocate_indices: trial loop not found")
+    main = main[0]
+    early = [x for x in ast.walk(main) if isinstance(x, (ast.Break, ast.Return))]
+
+    def stores(nodes, var):
+        out = set()
+        for n in nodes:
+            for x in ast.walk(n):
+                if isinstance(x, (ast.Assign, ast.AugAssign, ast.AnnAssign)):
+                    tg = x.targets if isinstance(x, ast.Assign) else [x.target]
+                    for t in tg:
+                        for e in (t.elts if isinstance(t, ast.Tuple) else [t]):
+                            if isinstance(e, ast.Attribute) and isinstance(e.value, ast.Name) and e.value.id == var:
+                                out.add(e.attr)
+        return out
+
+    reset = set()
+    for lp in loops:
+        if lp is main or lp.lineno > main.lineno:
+            continue
+        if str(norm(lp.iter)) == "self.lrs" and isinstance(lp.target, ast.Name):
+            reset |= stores(lp.body, lp.target.id)
+    # the range object of the trial loop
+    rng = None
+    for x in main.body:
+        if isinstance(x, ast.Assign) and len(x.targets) == 1 and isinstance(x.targets[0], ast.Name) and str(norm(x.value)).startswith("self.lrs["):
+            rng = x.targets[0].id
+    if rng is None:
+        raise AnalysisError("allocate_indices: the range of a turn is not `self.lrs[index]`")
+    written = stores(main.body, rng)
+    for c in ast.walk(main):
+        if isinstance(c, ast.Call) and isinstance(c.func, ast.Attribute) and isinstance(c.func.value, ast.Name) and c.func.value.id == "self":
+            for i, a in enumerate(c.args):
+                if isinstance(a, ast.Name) and a.id == rng:
+                    g = m.functions.get("HillClimbAllocator." + c.func.attr)
+                    if g is not None and len(g.args.args) > i + 1:
+                        written |= stores(g.body, g.args.args[i + 1].arg)
+    if not {"address", "end_address", "predecessor"} <= written:
+        raise AnalysisError(f"allocate_indices: per-trial fields not recognised ({sorted(written)})")
+    # reads by the permutation step
+    readers = [q for q in ("HillClimbAllocator.attempt_bottleneck_fix", "HillClimbAllocator.add_predecessor_turns", "HillClimbAllocator.search") if q in m.functions]
+    if len(readers) < 2:
+        raise AnalysisError("HillClimb: permutation step functions not found")
+    unguarded = {}
+    for q in readers:
+        g = m.functions[q]
+        parents = {}
+        for n in ast.walk(g):
+            for ch in ast.iter_child_nodes(n):
+                parents[ch] = n
+        for x in ast.walk(g):
+            if isinstance(x, ast.Attribute) and isinstance(x.ctx, ast.Load) and x.attr in written and x.attr != "address":
+                base = str(norm(x.value))
+                # guarded by a test of the allocated marker of the same object?
+                guarded = False
+                p_ = x
+                while p_ in parents:
+                    p_ = parents[p_]
+                    tests = []
+                    if isinstance(p_, (ast.If, ast.IfExp, ast.While)):
+                        tests.append(p_.test)
+                    if isinstance(p_, ast.BoolOp):
+                        tests.extend(p_.values)
+                    if isinstance(p_, ast.comprehension):
+                        tests.extend(p_.ifs)
+                    for t in tests:
+                        if any(isinstance(y, ast.Compare) and f"{base}.address" in str(norm(y)) and "NOT_ALLOCATED" in str(norm(y)) for y in ast.walk(t)):
+                            guarded = True
+                if not guarded:
+                    unguarded.setdefault(x.attr, []).append(f"{q.split('.')[-1]}:{x.lineno}")
+    rep.ok("C05-g", site, f"trial loop over the indices, per-trial fields {sorted(written)}, re-initialised for every range: {sorted(reset)}, early exits: {len(early)}",
+           f"read without an 'allocated' test by the permutation step: {sorted(unguarded)}")
+    if not early:
+        return
+    for fld in sorted((written & set(unguarded)) - reset):
+        if fld in _TRIAL_FIELD_EXEMPT:
+            rep.ok("C05-g", site, f"`{fld}` may be stale after an aborted trial", _TRIAL_FIELD_EXEMPT[fld])
+            continue
+        rep.bad("C05-g", site, f"`{fld}` is re-initialised for every range before a trial that may stop early",
+                f"the trial loop leaves at line {early[0].lineno} before all ranges are placed, `{fld}` is only written for the ranges reached, and {unguarded[fld][0]} reads it off every range: "
+                "a range of an older trial becomes the bottleneck (ValueError 'empty range in randrange(0, 0)' for 6 ranges with sizes 8 .. 8016) or its predecessor chain is followed")
 
 
 def _canon(form):
